@@ -20,15 +20,15 @@ func ruleC07(r *Report) {
 	r.NotDecided("the round trip itself (that the SP accepts and returns equal strings) over all XML 1.0 characters, signature methods and key types; exclusive-c14n and etree escaping correctness for every code point; encryption round trip (structural part under C08/C10)")
 	r.Rule("C07.schema", "writer/reader table agreement: every Element() builder names its element, attributes, character data and children exactly as the xml struct tags of the same type (and of the field holding the child) read them back, namespaces included", 60)
 	r.Rule("C07.verbatim", "string-typed fields are emitted as the field itself (no function of it); other kinds only through the fixed formatters (timeFormat, strconv); an emission is guarded by nothing but the emptiness of the same field", 60)
-	r.Rule("C07.order", "every slice field of a builder type is emitted by one range loop over that field that adds the element of each iteration unconditionally, in index order, with no early exit", 10)
+	r.Rule("C07.order", "every slice field of a builder type is emitted by one range loop over that field that adds the element of each iteration unconditionally, in index order, with no early exit", 7)
 	r.Rule("C07.coverage", "every field of a type on the Response/Assertion path is read by its builder (a field the builder ignores is lost between IdP and SP)", 15)
 	r.Rule("C07.session", "the default assertion maker copies the session's name identifier, attribute strings, groups (in order) and custom attributes (whole, in order) verbatim into the assertion, guarded only by the emptiness of the same session field", 8)
-	r.Rule("C07.escape", "every serialisation on the IdP's response path uses the canonical write settings (CR/LF/TAB in text and attribute values survive the SP's parser)", 2)
+	r.Rule("C07.escape", "every serialisation on the IdP's response path uses the canonical write settings (CR/LF/TAB in text and attribute values survive the SP's parser)", 1)
 
-	r.Rule("C07.prefixes", "every tree a non-builder function obtains from an Element() builder declares, at or below its root, each namespace prefix used by its element and attribute names", 4)
+	r.Rule("C07.prefixes", "every tree a non-builder function obtains from an Element() builder declares, at or below its root, each namespace prefix used by its element and attribute names", 3)
 	safely(r, func() { checkBuilders(r, p) })
 	safely(r, func() { checkSessionCopy(r, p) })
-	r.Rule("C07.registration", "what the SP publishes in Metadata() is what it sends and insists on: entity ID = request issuer = expected audience, an HTTP-POST ACS endpoint at the expected recipient = the ACS URL in requests, the SP certificate as encryption key", 4)
+	r.Rule("C07.registration", "what the SP publishes in Metadata() is what it sends and insists on: entity ID = request issuer = expected audience, an HTTP-POST ACS endpoint at the expected recipient = the ACS URL in requests, the SP certificate as encryption key", 2)
 	safely(r, func() { checkRegistration(r, p) })
 	checkEscape(r, p, "C07.escape", func(fn *ssa.Function) bool {
 		return fn.Signature.Recv() != nil && (isMethodOf(fn, "IdpAuthnRequest") || isMethodOf(fn, "IdentityProvider")) || fn.Name() == "elementToBytes"
